@@ -7,7 +7,7 @@
 From Coq Require Import Reals List Lra.
 From AhrsLib Require Import Base Rot.
 From AhrsGen Require Import C04gen_R.
-From AhrsProps Require Import C04_tac C04_matrix C04_eigen C04_closed C04_decl.
+From AhrsProps Require Import C04_tac C04_matrix C04_eigen C04_closed C04_decl C04_tilt.
 Import ListNotations.
 Open Scope R_scope.
 
@@ -69,6 +69,17 @@ Theorem C04_matrix_outputs_SO3 : forall w x y z, w*w + x*x + y*y + z*z = 1 ->
   SO3 (Rspec [w;x;y;z]) /\ SO3 (mtr3 (Rspec [w;x;y;z])).
 Proof. intros w x y z H. split; [exact (Rspec_SO3 w x y z H)|exact (SO3_tr _ (Rspec_SO3 w x y z H))]. Qed.
 Print Assumptions C04_matrix_outputs_SO3.
+
+(* Tilt.estimate (quaternion form): a unit quaternion with the rotation matrix of q — for EVERY unit q (level, inverted,
+   vertical, half-turn poses included: atan2 at the origin and the gimbal-lock pitch +-pi/2 are covered), every dip in
+   (-90,90) deg, all positive scalings *)
+Theorem C04_tilt_exact : forall w x y z sa sm cd sd,
+  w*w + x*x + y*y + z*z = 1 -> cd*cd + sd*sd = 1 -> 0 < cd -> 0 < sa -> 0 < sm ->
+  exists l, C04_tilt_q_R w x y z sa sm cd sd = Val l /\ qnorm2 l = 1 /\ Rspec l = Rspec [w;x;y;z].
+Proof.
+  intros w x y z sa sm cd sd Hq Hd Hc Ha Hm. exact (tilt_q_exact w x y z sa sm cd sd Hq (conj Hd Hc) Ha Hm).
+Qed.
+Print Assumptions C04_tilt_exact.
 
 (* ---- eigen-decomposition class: the matrix handed to LAPACK ---------------------------------------------- *)
 
